@@ -3,6 +3,7 @@ NEXT Next
 CONSTANTS
   PinTrue = {"b0", "b1", "b3", "l2", "e1", "g0", "g1"}
   PinFalse = {}
+  BallK = 0
 INVARIANT RoutesAgree
 INVARIANT UnsupInIS
 INVARIANT CompPartition
